@@ -114,22 +114,32 @@ theorem held_get_set (h : Held) (k : Key) (vs : List Value) : (h.set k vs).get k
       exact ih
 
 /-- compacting the held list of one key: the store side -/
+def compactStore (s : Store) (k : Key) : Store :=
+  match (s.lookup k).map Entry.deduplicate with
+  | some x => s.set k x
+  | none => s
+
+theorem compactStore_none {s : Store} {k : Key} (h : s.lookup k = none) : compactStore s k = s := by
+  simp [compactStore, h]
+
+theorem compactStore_some {s : Store} {k : Key} {e : Entry} (h : s.lookup k = some e) :
+    compactStore s k = s.set k e.deduplicate := by
+  simp [compactStore, h]
+
 theorem compact_store {s : Store} (ok : StoreOK s) (k : Key) :
-    let s' := match (s.lookup k).map Entry.deduplicate with
-      | some x => s.set k x
-      | none => s
+    let s' := compactStore s k
     toHeld s' = (toHeld s).compact k ∧ StoreOK s' ∧
     acct (toHeld s') ≤ acct (toHeld s) ∧
     (¬ (((toHeld s).compact k).get k).length < ((toHeld s).get k).length → acct (toHeld s') = acct (toHeld s)) := by
   cases hl : s.lookup k with
   | none =>
-    simp only [Option.map_none, Held.compact, toHeld_lookup, hl]
+    simp only [compactStore_none hl, Held.compact, toHeld_lookup, hl, Option.map_none]
     exact ⟨trivial, ok, Nat.le_refl _, fun _ => trivial⟩
   | some e =>
     have he := ok.2 _ (lookup_mem hl)
     have hlk : (toHeld s).lookup k = some e.values := by rw [toHeld_lookup, hl]; rfl
     have hnd : ((toHeld s).map (·.1)).Nodup := by rw [toHeld_keys]; exact ok.1
-    simp only [Option.map_some, Held.compact, hlk]
+    simp only [compactStore_some hl, Held.compact, hlk]
     have hset := acct_set_old (h := toHeld s) (k := k) (old := e.values) (dedup e.values) hlk hnd
     have hle := valuesSize_dedup_le e.values
     refine ⟨by rw [toHeld_set, Entry.deduplicate_values, dedup_eq_canon], ok.set k (Entry.deduplicate_ok he), ?_, ?_⟩
